@@ -23,9 +23,11 @@ static int verif_reports = 0;
 
 /* The registry is process-global and not thread-safe: it is active only when
  * NANOLANG_VERIF_AUDIT is set (never in the daemon). */
-static int verif_enabled = -1;
+static int verif_enabled = 0;
+__attribute__((constructor)) static void vm_verif_heap_configure(void) {
+    verif_enabled = getenv("NANOLANG_VERIF_AUDIT") ? 1 : 0;
+}
 bool vm_verif_enabled(void) {
-    if (verif_enabled < 0) verif_enabled = getenv("NANOLANG_VERIF_AUDIT") ? 1 : 0;
     return verif_enabled == 1;
 }
 
